@@ -290,4 +290,16 @@ func (*DeduplicateAggregatorFunction).Reset
   props C03
   modifies f.seen, f.values
   ensures no-state-leaks: fresh(f.seen) && len(f.values) == 0 && forallv(k, "", !dom(f.seen, k))
+
+func (*ExprBridge).matchesLikePattern
+  props C13
+  option safety
+  ensures empty-pattern-matches-only-empty-text: len(pattern) == 0 ==> (result <==> len(text) == 0)
+  ensures empty-text-needs-all-percent: len(text) == 0 ==> (result <==> forall(i, 0, len(pattern), pattern[i] == 37))
+  loop 1 invariant pi <= len(pattern)
+  loop 2 invariant pi <= len(pattern)
+  loop 1 invariant 0 <= ti && 0 <= pi && -1 <= starIdx && 0 <= matchIdx && matchIdx <= ti && starIdx < pi
+  loop 1 invariant len(pattern) == 0 ==> pi == 0 && starIdx == -1 && ti == 0
+  loop 1 invariant len(text) == 0 ==> pi == 0
+  loop 2 invariant 0 <= pi && (len(text) == 0 ==> forall(i, 0, pi, pattern[i] == 37))
 @*/
